@@ -69,7 +69,7 @@ incremental = false
 """ % (str(c["debug_assertions"]).lower(), str(c["overflow_checks"]).lower())
 
 
-def _crate_toml(name):
+def _crate_toml(name, deps=""):
     return """[package]
 name = "%s"
 version = "0.0.0"
@@ -81,7 +81,7 @@ path = "src/lib.rs"
 
 [dependencies]
 substrate-fixed = { path = "%s" }
-""" % (name, C.REPO)
+%s""" % (name, C.REPO, deps)
 
 
 class Crate:
@@ -157,7 +157,7 @@ def build(cfg, crates, max_retries=4):
         for attempt in range(max_retries + 1):
             for cr in todo:
                 d = os.path.join(cdir, cr.name)
-                _write_if_changed(os.path.join(d, "Cargo.toml"), _crate_toml(cr.name))
+                _write_if_changed(os.path.join(d, "Cargo.toml"), _crate_toml(cr.name, getattr(cr, "deps", "")))
                 _write_if_changed(os.path.join(d, "src", "lib.rs"), cr.text(dropped[cr.name]))
             env = {"CARGO_TARGET_DIR": _target_dir(cfg),
                    "RUSTC_WORKSPACE_WRAPPER": WRAPPER,
